@@ -235,31 +235,44 @@ def succLoop {κ : Type} (c : Cfg) (cb : Callback κ) (nest : Nat) (comment : Op
 termination_by meas c st
 decreasing_by exact consumeCommentGroup_meas c cb nest 1 st k h
 
+/-- `next`, after `comment, endline = p.consumeCommentGroup(0)`:
+`if p.file.Line(p.pos) != endline || p.tok == token.SEMICOLON || p.tok == token.EOF { p.lineComment = comment }` -/
+def lineK {κ : Type} (c : Cfg) (r : (List Nat × Nat) × PState × κ) : Option (List Nat) × PState × κ :=
+  if posLine c r.2.1.pos ≠ r.1.2 ∨ r.2.1.tok = tSEMICOLON ∨ r.2.1.tok = tEOF then
+    -- the next token is on a different line, thus the last comment group is a line comment
+    (some r.1.1, { r.2.1 with lineComment := some r.1.1 }, r.2.2)
+  else (some r.1.1, r.2.1, r.2.2)
+
+/-- `next`, the branch "the comment is on the same line as the previous token; it cannot be a
+lead comment but may be a line comment"; returns the local `comment` as well -/
+def lineBranch {κ : Type} (c : Cfg) (cb : Callback κ) (nest : Nat) (prev : Option Nat) (st : PState) (k : κ) :
+    Option (List Nat) × PState × κ :=
+  if posLine c st.pos = posLine c prev then lineK c (consumeCommentGroup c cb nest 0 st k)
+  else (none, st, k)
+
+/-- `next`, after the successor loop: `if endline+1 == p.file.Line(p.pos) { p.leadComment = comment }` -/
+def leadK {κ : Type} (c : Cfg) (r : (Option (List Nat) × Int) × PState × κ) : PState × κ :=
+  if r.1.2 + 1 = (posLine c r.2.1.pos : Int) then
+    -- the next token follows on the line immediately after the comment group: a lead comment
+    ({ r.2.1 with leadComment := r.1.1 }, r.2.2)
+  else (r.2.1, r.2.2)
+
+/-- `next`: "consume successor comments, if any" with `endline = -1`, then the lead-comment test -/
+def succK {κ : Type} (c : Cfg) (cb : Callback κ) (nest : Nat) (a : Option (List Nat) × PState × κ) : PState × κ :=
+  leadK c (succLoop c cb nest a.1 (-1) a.2.1 a.2.2)
+
+/-- `next`, the body of `if p.tok == token.COMMENT { … }` (`prev` is `p.pos` before `next0`) -/
+def commentBranch {κ : Type} (c : Cfg) (cb : Callback κ) (nest : Nat) (prev : Option Nat) (st : PState) (k : κ) :
+    PState × κ :=
+  succK c cb nest (lineBranch c cb nest prev st k)
+
+/-- `next`, after `prev := p.pos; p.next0()` -/
+def nextK {κ : Type} (c : Cfg) (cb : Callback κ) (nest : Nat) (prev : Option Nat) (r0 : PState × κ) : PState × κ :=
+  if r0.1.tok = tCOMMENT then commentBranch c cb nest prev r0.1 r0.2 else r0
+
 /-- `func (p *parser) next()` -/
 def next {κ : Type} (c : Cfg) (cb : Callback κ) (nest : Nat) (st : PState) (k : κ) : PState × κ :=
-  let st : PState := { st with leadComment := none, lineComment := none }
-  let prev := st.pos
-  let r0 := next0 c cb nest st k
-  let st := r0.1
-  let k := r0.2
-  if st.tok = tCOMMENT then
-    -- var comment *ast.CommentGroup; var endline int
-    let a : Option (List Nat) × PState × κ :=
-      if posLine c st.pos = posLine c prev then
-        -- the comment is on the same line as the previous token
-        let r := consumeCommentGroup c cb nest 0 st k
-        let st' := r.2.1
-        if posLine c st'.pos ≠ r.1.2 ∨ st'.tok = tSEMICOLON ∨ st'.tok = tEOF then
-          (some r.1.1, { st' with lineComment := some r.1.1 }, r.2.2)
-        else (some r.1.1, st', r.2.2)
-      else (none, st, k)
-    -- consume successor comments, if any
-    let r := succLoop c cb nest a.1 (-1) a.2.1 a.2.2
-    let st := r.2.1
-    if r.1.2 + 1 = (posLine c st.pos : Int) then
-      ({ st with leadComment := r.1.1 }, r.2.2)
-    else (st, r.2.2)
-  else (st, k)
+  nextK c cb nest st.pos (next0 c cb nest { st with leadComment := none, lineComment := none } k)
 
 /-! ## the rest of the parser, as a parameter -/
 
